@@ -665,6 +665,31 @@ def rule_d(ctx):
     dm = f"{f.params[2]}.img - {f.params[1]}.img"
     ctx.ob(R, f.qname, "mass difference is flattened in Fortran order", arg in (f"np.ravel({dm}, 'F')", f"np.ravel({dm}, order='F')", f"({dm}).ravel('F')", f"({dm}).ravel(order='F')", f"({dm}).flatten('F')", f"({dm}).flatten(order='F')"), arg, f.node)
     ctx.ob(R, f.qname, "mass difference is destination minus source", dm in arg and arg.count(".img") == 2, arg, f.node)
+    # reported arrays keep their value: a name reported in the info dictionary is not handed to a method that modifies that argument in
+    # place (effect summaries) -- `weighted_flux = self.cell_weighted_flux(flux)` with an in-place scaling reports the weighted flux twice
+    from ..effects import Effects
+    from ..flow import bind_call
+
+    E = Effects(m)
+    reported = {}
+    for c in ast.walk(f.node):
+        if isinstance(c, ast.Dict):
+            for k_, v_ in zip(c.keys, c.values):
+                if isinstance(k_, ast.Constant) and isinstance(v_, ast.Name):
+                    reported[v_.id] = k_.value
+    for c in ast.walk(f.node):
+        if not isinstance(c, ast.Call):
+            continue
+        g = m.resolve_call(c, f)
+        if g is None or not hasattr(g, "node") or not isinstance(g.node, ast.FunctionDef):
+            continue
+        b = bind_call(c, g.node, skip_first=getattr(g, "cls", None) is not None and isinstance(c.func, ast.Attribute))
+        if not b:
+            continue
+        for prm, a_ in b.items():
+            if isinstance(a_, ast.Name) and a_.id in reported:
+                ctx.ob(R, f.qname, f"info['{reported[a_.id]}'] (`{a_.id}`) is not modified by `{norm(c.func)}`", prm not in E.mut.get(g, set()),
+                       f"{g.short} modifies its parameter `{prm}` in place: the array reported as '{reported[a_.id]}' changes after it was computed", c, evidence=True)
     ctx.floor(R, 1)
 
 
